@@ -175,7 +175,7 @@ impl Prop for C11 {
     }
     fn runs(&self, tier: Tier) -> u64 {
         match tier {
-            Tier::Quick => 8000,
+            Tier::Quick => 24_000,
             Tier::Thorough => 200_000,
         }
     }
